@@ -582,11 +582,11 @@ Section Theorems.
     intros Hu Hnd Ha Hb.
     set (meth := lower (trim_end_matches (lit "Self") tn)).
     assert (Hrun : run_body (ctx_of (struct_input attrs fs))
-                     (BodyBuild (family_build fs (fun m => ECall CMethod meth (ESel Lhs m) (ESel Rhs m))))
+                     (BodyBuild (family_build fs (fun m => ECall (CPath (receiver meth)) meth (ESel Lhs m) (ESel Rhs m))))
                      (CStruct, a) (Some (CStruct, b)) None
                    = Some (RVal (CStruct, map2 (op meth) a b))).
     { rewrite run_family by assumption. cbn [option_map snd].
-      rewrite (eval_members_bin V op uop ident _ a b None meth (fun _ => CMethod)) by assumption.
+      rewrite (eval_members_bin V op uop ident _ a b None meth (fun _ => CPath (receiver meth))) by assumption.
       reflexivity. }
     destruct fs as [l|l|]; [| |contradiction]; eexists; (split; [reflexivity|exact Hrun]).
   Qed.
@@ -664,12 +664,12 @@ Section Theorems.
       rewrite eval_initializer by (auto using scalar_exprs_length);
       unfold scalar_exprs; rewrite mapM_map;
       rewrite (mapM_ext_in _ (fun p => eval (env_struct (members_of fs) a None (Some r))
-                                         (ECall CMethod (std_method t) (ESel Lhs (fst p)) EScalar)))
+                                         (ECall (CPath RefNo) (std_method t) (ESel Lhs (fst p)) EScalar)))
         by (intros; reflexivity);
       rewrite (mapM_combine_fst (fun m => eval (env_struct (members_of fs) a None (Some r))
-                                            (ECall CMethod (std_method t) (ESel Lhs m) EScalar)))
+                                            (ECall (CPath RefNo) (std_method t) (ESel Lhs m) EScalar)))
         by (symmetry; apply members_length);
-      rewrite (eval_members_scalar V op uop ident _ a r (std_method t) (fun _ => CMethod)) by assumption;
+      rewrite (eval_members_scalar V op uop ident _ a r (std_method t) (fun _ => (CPath RefNo))) by assumption;
       reflexivity.
   Qed.
 
@@ -710,12 +710,12 @@ Qed.
 
 Lemma tuple_exprs_members l meth :
   tuple_exprs (List.length l) meth
-  = map (fun m => ECall CMethod meth (ESel Lhs m) (ESel Rhs m)) (members_of (FUnnamed l)).
+  = map (fun m => ECall (CPath (receiver meth)) meth (ESel Lhs m) (ESel Rhs m)) (members_of (FUnnamed l)).
 Proof. unfold tuple_exprs. cbn [members_of]. rewrite map_map. reflexivity. Qed.
 
 Lemma struct_exprs_members l meth :
   struct_exprs (field_names l) meth
-  = map (fun m => ECall CMethod meth (ESel Lhs m) (ESel Rhs m)) (members_of (FNamed l)).
+  = map (fun m => ECall (CPath (receiver meth)) meth (ESel Lhs m) (ESel Rhs m)) (members_of (FNamed l)).
 Proof. unfold struct_exprs. cbn [members_of]. rewrite map_map. reflexivity. Qed.
 
 Lemma base_of_add_assign t : expander_of t = XAddAssignLike -> expander_of (base_of t) = XAddLike.
@@ -756,7 +756,7 @@ Section Theorems2.
   Lemma exec_combine_fst {B} (sty : member * B -> callstyle) meth (arg : member -> expr) ms0 bo sc :
     forall ms (fl : list B) a, List.length fl = List.length ms ->
       exec_stmts ms0 bo sc a (map (fun p => ECall (sty p) meth (ESel Lhs (fst p)) (arg (fst p))) (combine ms fl))
-      = exec_stmts ms0 bo sc a (map (fun m => ECall CMethod meth (ESel Lhs m) (arg m)) ms).
+      = exec_stmts ms0 bo sc a (map (fun m => ECall (CPath RefNo) meth (ESel Lhs m) (arg m)) ms).
   Proof.
     induction ms as [|k ms IH]; intros [|y fl] a Hl; cbn in Hl; try discriminate; [reflexivity|].
     cbn [combine map Model.exec_stmts Model.exec_stmt fst].
@@ -777,7 +777,7 @@ Section Theorems2.
     destruct fs as [l|l|]; [| |contradiction]; eexists; (split; [reflexivity|]);
       unfold Model.run_assign; cbn [im_body fst snd option_map]; rewrite ctx_struct;
       [rewrite struct_exprs_members|rewrite tuple_exprs_members];
-      rewrite (exec_members_bin V op uop ident _ (fun _ => CMethod)) by assumption; reflexivity.
+      rewrite (exec_members_bin V op uop ident _ (fun _ => CPath (receiver _))) by assumption; reflexivity.
   Qed.
 
   Theorem struct_assign_fieldwise t attrs fs a b :
@@ -819,7 +819,7 @@ Section Theorems2.
       unfold scalar_exprs;
       rewrite (exec_combine_fst (fun p => CUfcs (f_ty (snd p)) RefMut) (std_method t) (fun _ => EScalar))
         by (symmetry; apply members_length);
-      rewrite (exec_members_scalar V op uop ident _ (fun _ => CMethod)) by assumption; reflexivity.
+      rewrite (exec_members_scalar V op uop ident _ (fun _ => (CPath RefNo))) by assumption; reflexivity.
   Qed.
 
   (** [a op= b] leaves [a] equal to what [a op b] returns, provided the same is true of the operand
